@@ -42,6 +42,8 @@ pub const STEMS: &[&str] = &[
     "zz", "Zy", "zX", "long spelling with several words", "ß", "ẞ", "ı", "ǅ", "é", "É", "0", "_", "__", "a_", "_a1",
     "semi;colon", "per%cent", "#hash", "@at", "sla/sh", "(paren)", "[br]", "<lt>", "que?", "ast*", "ti~lde", "ca^ret",
     "pi|pe", "amp&", "dol$", "eq=", "com,ma", "co:lon", "apos'", "grave`",
+    // escaped braces are not placeholders: the literal is the name, verbatim, for every derive
+    "set{{}}", "open{{", "}}close", "a{{b}}c",
 ];
 
 pub const MESSAGES: &[&str] = &[
